@@ -7,7 +7,7 @@ CONSTANTS
  Ns = {2}
  MsgVecs <- MV23
  CCoins <- AllZq
- SCoins <- C2b
+ SCoins <- C4a
  Tamper = FALSE
  PowM <- TabPowM
 INVARIANTS Correct HonestAbort Refusal OneOnly Curious CuriousPairs
